@@ -383,14 +383,17 @@ where
         S: GGSWInfos,
     {
         let res_dft: usize = self.bytes_of_vec_znx_dft((s_infos.rank() + 1).into(), s_infos.size());
+        // The product runs on the temporary `b - a` into a receiver of the selector's size
+        // (the layouts `glwe_external_product_internal` asserts its scratch with).
+        let tmp_c_infos: GLWELayout = GLWELayout {
+            n: s_infos.n(),
+            base2k: s_infos.base2k(),
+            k: res_a_infos.max_k().max(res_b_infos.max_k()),
+            rank: s_infos.rank(),
+        };
         let mut tot = res_dft
-            + (self.glwe_external_product_internal_tmp_bytes(res_a_infos, res_b_infos, s_infos)
-                + GLWE::<Vec<u8>>::bytes_of_from_infos(&GLWELayout {
-                    n: s_infos.n(),
-                    base2k: s_infos.base2k(),
-                    k: res_a_infos.max_k().max(res_b_infos.max_k()),
-                    rank: s_infos.rank(),
-                }))
+            + (self.glwe_external_product_internal_tmp_bytes(s_infos, &tmp_c_infos, s_infos)
+                + GLWE::<Vec<u8>>::bytes_of_from_infos(&tmp_c_infos))
             .max(self.vec_znx_big_normalize_tmp_bytes());
 
         if res_a_infos.base2k() != s_infos.base2k() {
@@ -540,9 +543,19 @@ where
         B: GGSWInfos,
     {
         let res_dft: usize = self.bytes_of_vec_znx_dft((selector_infos.rank() + 1).into(), selector_infos.size());
+        // The product runs on the difference of the two branches (held in `res`, or in a temporary for
+        // `cmux_assign_neg`) into a receiver of the selector's size: the layouts
+        // `glwe_external_product_internal` asserts its scratch with.
+        let diff_infos: GLWELayout = GLWELayout {
+            n: selector_infos.n(),
+            base2k: res_infos.base2k(),
+            k: res_infos.max_k().max(a_infos.max_k()),
+            rank: res_infos.rank(),
+        };
         res_dft
+            + GLWE::<Vec<u8>>::bytes_of_from_infos(&diff_infos)
             + self
-                .glwe_external_product_internal_tmp_bytes(res_infos, a_infos, selector_infos)
+                .glwe_external_product_internal_tmp_bytes(selector_infos, &diff_infos, selector_infos)
                 .max(self.vec_znx_big_normalize_tmp_bytes())
     }
 
